@@ -579,3 +579,92 @@ Proof.
   exists (st_of ex_cfg ex_tr_note). eexists _, _, _.
   split; [apply reach_st_of; vm_compute; discriminate|]. compute. repeat split; reflexivity.
 Qed.
+
+(** * C01.4: a handler is entered at most once per task, never for a rejected member *)
+Theorem c01_start_origin c s l s' os p cn : reach c s -> step s l = Some (s', os) -> In (OStart p cn) os ->
+  exists k t t', nth_error (tasks s) k = Some t /\ nth_error (tasks s') k = Some t' /\
+    t_params t = p /\ t_cancelled t = cn /\ rank (t_st t) < 2 /\ t_st t' = TRunning /\ t_pre t = None /\
+    (l = LRelAcquire k \/ exists k0, l = LRelHandled k0 /\ k0 <> k).
+Proof.
+  intros R H Ho. apply reach_reachf in R. pose proof (reachf_inv _ _ R) as I.
+  destruct (step_obs_raw _ _ _ _ _ H Ho) as (Cr & s1 & os1 & Hr & Ho1 & K); [cbn; tauto|].
+  pose proof (raw_obs _ _ _ _ _ I Hr Ho1) as O. cbn in O.
+  destruct O as (k & t & t' & E & E' & Ep & Ec & Rk & St' & _ & Hl).
+  exists k, t, t'. repeat split; auto.
+  destruct (i_pre _ I _ _ E) as [P _]. destruct (t_pre t) as [e|] eqn:Pe; auto.
+  rewrite (P _ eq_refl) in Rk. cbn in Rk. lia.
+Qed.
+
+(* the window in which task k moves into its handler *)
+Definition before_start (s : state) (k : nat) : bool :=
+  match nth_error (tasks s) k with Some t => rank (t_st t) <? 2 | None => true end.
+Definition in_handler (s : state) (k : nat) : bool :=
+  match nth_error (tasks s) k with Some t => match t_st t with TRunning => true | _ => false end | None => false end.
+Definition enters (k : nat) (s s' : state) : bool := before_start s k && in_handler s' k.
+
+Fixpoint enter_count (k : nat) (s : state) (tr : list label) : nat :=
+  match tr with
+  | [] => 0
+  | l :: r => match step s l with
+              | Some (s1, _) => (if enters k s s1 then 1 else 0) + enter_count k s1 r
+              | None => 0
+              end
+  end.
+
+Lemma before_start_mono s s' k : tasks_ext (tasks s) (tasks s') -> before_start s k = false -> before_start s' k = false.
+Proof.
+  unfold before_start. intros X H. destruct (nth_error (tasks s) k) as [t|] eqn:E; [|discriminate].
+  destruct (X _ _ E) as (t' & E' & Le). rewrite E'. destruct Le as [_ _ _ _ _ _ _ _ (Rk & _)].
+  apply Nat.ltb_ge in H. apply Nat.ltb_ge. lia.
+Qed.
+
+Lemma enter_count_bound c k : forall tr s, reachf c s ->
+  enter_count k s tr <= (if before_start s k then 1 else 0).
+Proof.
+  induction tr as [|l r IH]; intros s R; cbn; [lia|].
+  destruct (step s l) as [[s1 os]|] eqn:St; [|lia].
+  assert (R1 : reachf c s1) by (eapply step_reachf; eauto).
+  specialize (IH _ R1). destruct (step_ext _ _ _ _ _ R St) as [X _].
+  unfold enters. destruct (before_start s k) eqn:B; cbn.
+  - destruct (in_handler s1 k) eqn:Ih.
+    + assert (B1 : before_start s1 k = false).
+      { unfold in_handler in Ih. unfold before_start. destruct (nth_error (tasks s1) k) as [t|]; [|discriminate].
+        destruct (t_st t); try discriminate. auto. }
+      rewrite B1 in IH. lia.
+    + destruct (before_start s1 k); lia.
+  - rewrite (before_start_mono _ _ _ X B) in IH. lia.
+Qed.
+
+Theorem c01_handler_once c tr s oss k : run (init_of c) tr = Some (s, oss) -> enter_count k (init_of c) tr <= 1.
+Proof.
+  intros _. pose proof (enter_count_bound c k tr _ (rf_init c)). destruct (before_start (init_of c) k); lia.
+Qed.
+
+(* a member rejected by checkAndAssign never enters a handler, from any reachable state on *)
+Theorem c01_skip_never_starts c s k t tr e : reach c s -> nth_error (tasks s) k = Some t -> t_pre t = Some e ->
+  enter_count k s tr = 0.
+Proof.
+  intros R E P. apply reach_reachf in R. pose proof (enter_count_bound c k tr s R) as B.
+  assert (Z : before_start s k = false).
+  { unfold before_start. rewrite E. rewrite (task_pre_skip _ _ _ _ _ R E P). auto. }
+  rewrite Z in B. lia.
+Qed.
+
+Example c01_handler_once_nonvacuous :
+  run (init_of ex_cfg) ex_tr_delivered <> None /\ enter_count 0 (init_of ex_cfg) ex_tr_delivered = 1.
+Proof. vm_compute. split; auto. discriminate. Qed.
+
+Example c01_start_origin_nonvacuous :
+  exists s s' os p cn, reach ex_cfg s /\ step s (LRelAcquire 0) = Some (s', os) /\ In (OStart p cn) os.
+Proof.
+  exists (st_of ex_cfg [LStart; LRelNext; LFeed (FMsg (InMsgs false [ex_call [49%N] [91;93]%N])); LRelRead; LRelBarrier]).
+  eexists _, _, _, _. split; [apply reach_st_of; vm_compute; discriminate|]. compute. split; [reflexivity|]. left; reflexivity.
+Qed.
+
+(* an invalid member (unknown method) in a reachable state: it is TSkip and is never started *)
+Example c01_skip_never_starts_nonvacuous :
+  exists s t e, reach ex_cfg s /\ nth_error (tasks s) 0 = Some t /\ t_pre t = Some e.
+Proof.
+  exists (st_of ex_cfg [LStart; LRelNext; LFeed (FMsg (InMsgs false [ex_msg [49%N] [120%N] []])); LRelRead]).
+  eexists _, _. split; [apply reach_st_of; vm_compute; discriminate|]. compute. split; reflexivity.
+Qed.
